@@ -961,10 +961,20 @@ func (e *Ev) assertTo(x Term, to types.Type, n ast.Node) (Term, string) {
 					used = append(used, qv)
 				}
 			}
+			intOnly := true
+			for _, qv := range used {
+				if !strings.HasSuffix(qv, " Int)") {
+					intOnly = false
+				}
+			}
 			if len(used) > 0 {
 				c = fmt.Sprintf("(forall (%s) %s)", strings.Join(used, " "), c)
 			}
-			e.define(c)
+			// a bound variable of an object sort ranges over all values, not only stored ones: the
+			// fact is about stored interfaces, so it is not stated then
+			if intOnly {
+				e.define(c)
+			}
 		}
 	case sStr:
 		r.S = app("ostr", x.S)
